@@ -62,6 +62,12 @@ CHECK_DEADLOCK FALSE
     for k in ("Transfer", "Deploy", "CallForward", "CallRevert", "SelfDestruct", "CallCreate", "Stake", "Refund", "EthForward"):
         if kinds[(k, True)] == 0 or kinds[(k, False)] == 0:
             raise Inconclusive("vacuity: %s never both succeeded and failed: %s" % (k, dict(kinds)))
+    for x in ("all", "over", "huge"):
+        for way in ("call", "create", "callcode"):
+            if not any(k.startswith("CallExplicit.%s.%s." % (x, way)) and ok for (k, ok) in kinds):
+                raise Inconclusive("vacuity: no successful transaction with an inner %s naming %s of the contract's balance" % (way, x))
+    if not any(k.startswith("CallExplicit.") and k.endswith(".self") and ok for (k, ok) in kinds):
+        raise Inconclusive("vacuity: no contract called itself with value")
     for f in ("burn", "stake-locked", "refund-matured", "reward-matured"):
         if feats[f] == 0:
             raise Inconclusive("vacuity: no block with %s" % f)
